@@ -12,6 +12,17 @@
 namespace SymEngine
 {
 
+// operand of a logical operator in the grammar: anything but a Boolean is a
+// parse error (the grammar actions used to cast unconditionally)
+inline RCP<const Boolean> parse_boolean_operand(const RCP<const Basic> &b)
+{
+    if (not is_a_Boolean(*b)) {
+        throw ParseError("Not of Boolean type in a logical expression: "
+                         + b->__str__());
+    }
+    return rcp_static_cast<const Boolean>(b);
+}
+
 /*
    To Parse (default) constructor is expensive as it creates all the maps and
    tables. If just one expression needs to be parsed, then calling
